@@ -84,12 +84,14 @@ type Target struct {
 	Nothing bool
 	Base    Expr   // object (pointer) expression or slice expression
 	Field   string // field name; "*" = all fields; "" with Elems = slice elements
-	Elems   bool   // base is a slice expression: all elements
+	Elems   bool   // base is a slice expression: all elements (or the single element Index)
+	Index   Expr   // non-nil: the single element base[Index]
 	Ghost   bool
 	// quantified over elements: Base contains EIndex with index EIdent{"*"}
 }
 
 type SplitSpec struct {
+	Alts   []Expr // further expressions known to have the same value
 	E      Expr
 	Text   string
 	Lo, Hi int64
@@ -116,7 +118,23 @@ type FuncC struct {
 	Loops     map[int]*LoopC
 	PanicTags []string // property tags for safety obligations of this function
 	Arith     string   // "" (native div/mod) or "uf"
+	Cut       *CutC    // optional cut point splitting the proof into two phases
+	Specs     []SpecLet // named spec values over the entry state (opaque after a cut)
 	Line      int
+}
+
+// CutC is a cut point inside a function body: the clauses are asserted when the
+// statement on the given source line is reached (phase 1) and assumed, after
+// havocking everything written so far, for the rest of the function (phase 2).
+type CutC struct {
+	Line    string
+	Asserts []Clause
+	Splits  []SplitSpec // splits of phase 2
+}
+
+type SpecLet struct {
+	Name string
+	E    Expr
 }
 
 type Lemma struct {
@@ -127,6 +145,7 @@ type Lemma struct {
 }
 
 type Contracts struct {
+	UFs    map[string]*PureFn // uninterpreted functions with a definitional axiom (integer arguments and result)
 	Pures  map[string]*PureFn
 	Funcs  map[string]*FuncC
 	Order  []string
@@ -404,8 +423,8 @@ func parseExprString(s string) (e Expr, err error) {
 
 // ---------- file-level parser ----------
 
-var itemKeywords = map[string]bool{"pure": true, "func": true, "extern": true, "trusted": true, "lemma": true, "ghost": true}
-var clauseKeywords = map[string]bool{"arith": true, "requires": true, "ensures": true, "modifies": true, "decreases": true, "split": true,
+var itemKeywords = map[string]bool{"uf": true, "pure": true, "func": true, "extern": true, "trusted": true, "lemma": true, "ghost": true}
+var clauseKeywords = map[string]bool{"spec": true, "cut": true, "assert": true, "arith": true, "requires": true, "ensures": true, "modifies": true, "decreases": true, "split": true,
 	"loop": true, "invariant": true, "backedge": true, "iteration": true, "bounded": true, "panics": true}
 
 // readContractLines returns the logical lines (keyword + text) of all //@ lines
@@ -495,11 +514,10 @@ func parseTarget(s string) (Target, error) {
 		t.Base = x.X
 		t.Field = x.F
 	case *EIndex:
-		if id, ok := x.I.(*EIdent); ok && id.Name == "*" {
-			t.Base = x.X
-			t.Elems = true
-		} else {
-			return t, fmt.Errorf("modifies target %q: only [*] element sets are supported", s)
+		t.Base = x.X
+		t.Elems = true
+		if id, ok := x.I.(*EIdent); !ok || id.Name != "*" {
+			t.Index = x.I
 		}
 	default:
 		return t, fmt.Errorf("modifies target %q: expected path.f, path.* or path[*]", s)
@@ -529,7 +547,7 @@ func splitTopLevel(s string, sep byte) []string {
 }
 
 func ParseContracts(paths []string) (*Contracts, error) {
-	cs := &Contracts{Pures: map[string]*PureFn{}, Funcs: map[string]*FuncC{}, Ghosts: map[string]string{}}
+	cs := &Contracts{UFs: map[string]*PureFn{}, Pures: map[string]*PureFn{}, Funcs: map[string]*FuncC{}, Ghosts: map[string]string{}}
 	for _, path := range paths {
 		lines, err := readContractLines(path)
 		if err != nil {
@@ -540,7 +558,7 @@ func ParseContracts(paths []string) (*Contracts, error) {
 		for _, l := range lines {
 			fail := func(err error) error { return fmt.Errorf("%s:%d: %v", path, l.line, err) }
 			switch l.kw {
-			case "pure":
+			case "pure", "uf":
 				cur, curLoop = nil, nil
 				eq := strings.Index(l.text, "=")
 				// find the '=' that follows the closing paren of the parameter list
@@ -576,7 +594,11 @@ func ParseContracts(paths []string) (*Contracts, error) {
 				if _, dup := cs.Pures[name]; dup {
 					return nil, fail(fmt.Errorf("pure %s redefined", name))
 				}
-				cs.Pures[name] = &PureFn{Name: name, Params: params, Body: body, Text: l.text}
+				if l.kw == "uf" {
+					cs.UFs[name] = &PureFn{Name: name, Params: params, Body: body, Text: l.text}
+				} else {
+					cs.Pures[name] = &PureFn{Name: name, Params: params, Body: body, Text: l.text}
+				}
 			case "ghost":
 				f := strings.Fields(l.text)
 				if len(f) < 2 {
@@ -625,8 +647,35 @@ func ParseContracts(paths []string) (*Contracts, error) {
 					}
 					curLoop = &LoopC{Ord: n}
 					cur.Loops[n] = curLoop
+				case "spec":
+					k := strings.Index(l.text, "=")
+					if k < 0 {
+						return nil, fail(fmt.Errorf("spec: expected 'name = expr'"))
+					}
+					e, err := parseExprString(l.text[k+1:])
+					if err != nil {
+						return nil, fail(err)
+					}
+					cur.Specs = append(cur.Specs, SpecLet{Name: strings.TrimSpace(l.text[:k]), E: e})
 				case "arith":
 					cur.Arith = strings.TrimSpace(l.text)
+				case "cut":
+					txt, err := strconv.Unquote(strings.TrimSpace(l.text))
+					if err != nil {
+						return nil, fail(fmt.Errorf("cut: quoted source line expected"))
+					}
+					cur.Cut = &CutC{Line: strings.Join(strings.Fields(txt), " ")}
+					curLoop = nil
+				case "assert":
+					if cur.Cut == nil {
+						return nil, fail(fmt.Errorf("assert outside cut"))
+					}
+					tags, rest := parseTags(l.text)
+					e, err := parseExprString(rest)
+					if err != nil {
+						return nil, fail(err)
+					}
+					cur.Cut.Asserts = append(cur.Cut.Asserts, Clause{Kind: "assert", Tags: tags, E: e, Text: rest})
 				case "panics":
 					tags, _ := parseTags(l.text)
 					cur.PanicTags = append(cur.PanicTags, tags...)
@@ -647,9 +696,18 @@ func ParseContracts(paths []string) (*Contracts, error) {
 					if k < 0 {
 						return nil, fail(fmt.Errorf("split: expected '<expr> in lo..hi'"))
 					}
-					e, err := parseExprString(l.text[:k])
+					alts := strings.Split(l.text[:k], " | ")
+					e, err := parseExprString(alts[0])
 					if err != nil {
 						return nil, fail(err)
+					}
+					var altEs []Expr
+					for _, a := range alts[1:] {
+						ae, err := parseExprString(a)
+						if err != nil {
+							return nil, fail(err)
+						}
+						altEs = append(altEs, ae)
 					}
 					r := strings.Split(strings.TrimSpace(l.text[k+4:]), "..")
 					if len(r) != 2 {
@@ -660,7 +718,12 @@ func ParseContracts(paths []string) (*Contracts, error) {
 					if e1 != nil || e2 != nil {
 						return nil, fail(fmt.Errorf("split: bad range"))
 					}
-					cur.Splits = append(cur.Splits, SplitSpec{E: e, Text: strings.TrimSpace(l.text[:k]), Lo: lo, Hi: hi})
+					sp := SplitSpec{E: e, Alts: altEs, Text: strings.TrimSpace(alts[0]), Lo: lo, Hi: hi}
+					if cur.Cut != nil {
+						cur.Cut.Splits = append(cur.Cut.Splits, sp)
+					} else {
+						cur.Splits = append(cur.Splits, sp)
+					}
 				case "bounded":
 					if curLoop == nil {
 						return nil, fail(fmt.Errorf("bounded outside loop"))
